@@ -256,6 +256,10 @@ fn check_history(report: &Report, rt: &Arc<tokio::runtime::Runtime>, hist_names:
 }
 
 pub fn run(opts: Opts) -> i32 {
+    if let Some(spec) = opts.extra.iter().find_map(|a| a.strip_prefix("race=")) {
+        let spec = spec.to_string();
+        return crate::race::worker(opts, "C08", "exploration", &spec);
+    }
     let report = Report::new("C08", "exploration", opts.clone());
     if let Some(path) = &opts.replay {
         report.replay_by_re_enumeration(path);
@@ -338,5 +342,40 @@ pub fn run(opts: Opts) -> i32 {
         let anchors = if label.starts_with("40 x") { 40 } else { 8 };
         check_history(&report, rt, vec![label.clone()], &|fx, t| build(fx, t), anchors);
     });
+    // engine S at system-call granularity: a compile racing ONE concurrent append (every file-system
+    // call of either is a scheduling point); the compiled context must be that of one of the two
+    // sequential orders, and the caches left behind must be transparent
+    {
+        use crate::race::{job, Pre, Reader, Writer, PRES, WRITERS};
+        let tier = report.tier();
+        let mut jobs = Vec::new();
+        let t = tier.as_str();
+        let cap = report.opts.wall_cap_s;
+        if tier == Tier::Quick {
+            for w in [Writer::Message, Writer::RunEnded, Writer::SideEffect] {
+                jobs.push(job(t, "c08", cap, Pre::OpenTurn, Reader::Compile(1), w, 1));
+            }
+            jobs.push(job(t, "c08", cap, Pre::OpenTurnNoCaches, Reader::Compile(1), Writer::Message, 1));
+            jobs.push(job(t, "c08", cap, Pre::LongWithCheckpoint, Reader::Compile(17), Writer::Message, 1));
+            jobs.push(job(t, "c08", cap, Pre::LongWithCheckpoint, Reader::Compile(8), Writer::Checkpoint, 1));
+        } else {
+            for pre in PRES {
+                let anchors: Vec<usize> = if pre == Pre::LongWithCheckpoint { vec![0, 8, 17] } else { vec![0, 1] };
+                for a in anchors {
+                    for w in WRITERS {
+                        let tail_anchor = a == if pre == Pre::LongWithCheckpoint { 17 } else { 1 };
+                        if w == Writer::Checkpoint && tail_anchor {
+                            continue; // see race::Writer::Checkpoint
+                        }
+                        jobs.push(job(t, "c08", cap, pre, Reader::Compile(a), w, 1));
+                    }
+                }
+            }
+            jobs.push(job(t, "c08", cap, Pre::OpenTurn, Reader::Compile(1), Writer::Message, 2));
+            jobs.push(job(t, "c08", cap, Pre::OpenTurn, Reader::Compile(1), Writer::RunEnded, 2));
+        }
+        report.set_extra("race_configs", json!(jobs.len()));
+        crate::common::run_workers(&report, jobs, 16, &crate::race::shim_env());
+    }
     report.finish()
 }
